@@ -3,8 +3,6 @@ package props
 import (
 	"encoding/json"
 	"fmt"
-	"os"
-	"path/filepath"
 	"runtime"
 	"strings"
 	"sync"
@@ -76,11 +74,8 @@ func checkC14(c c14Case, rec *Rec) *Violation {
 	if c.Goroutines < 2 || len(c.Queries) == 0 {
 		return nil
 	}
-	if dir := os.Getenv("VERIF_OUT"); dir != "" && os.Getenv("VERIF_TRACK_CASE") != "" {
-		// a race report halts the process: leave the case behind for the driver
-		raw, _ := json.Marshal(replayFile{Property: id, Signature: "C14:data-race", Case: mustJSON(c)})
-		_ = os.WriteFile(filepath.Join(dir, "current-case.json"), raw, 0o644)
-	}
+	// a race report (or a fatal runtime error) halts the process: leave the case behind for the driver
+	trackCase(id, "C14:data-race", c)
 	c14HookMu.Lock()
 	defer c14HookMu.Unlock()
 	setYieldHooks(nil)
